@@ -119,8 +119,33 @@ def rerun_cases(ctx, n_async, n_sync, n_cf):
     return out
 
 
+def zero_cases(ctx, n):
+    """Nodes with ZERO jobs (split over an empty list) that have consumers, under both loops."""
+    rng = ctx.rng
+    out = []
+    for i in range(n):
+        if i % 2 == 0:
+            pre = rng.randint(0, 2)
+            nodes = [dict(id=j, preds=[j - 1] if j else [], split=None) for j in range(pre)]
+            z = len(nodes)
+            nodes.append(dict(id=z, preds=[z - 1] if z else [], split=0))
+            for j in range(rng.randint(1, 3)):
+                nodes.append(dict(id=z + 1 + j, preds=[z + j], split=rng.choice([None, None, 2])))
+        else:
+            while True:
+                nodes = fakes.gen_nodes(rng, nmin=3, nmax=6, zero_p=0.35)
+                zs = [nd["id"] for nd in nodes if nd["split"] == 0]
+                if zs and any(set(nd["preds"]) & set(zs) for nd in nodes):
+                    break
+        nj = sum(fakes.njobs(nd) for nd in nodes)
+        mode = "sync" if i % 4 != 1 else "async"
+        out.append(dict(nodes=nodes, k=fakes.gen_k(rng, nj), fail=[], oracle=fakes.gen_oracle(rng, nj) if mode == "async" else [],
+                        mode=mode, zero=True))
+    return out
+
+
 def run(ctx):
-    extra = rerun_cases(ctx, ctx.budget(6, 120), ctx.budget(2, 30), ctx.budget(0, 2))
+    extra = rerun_cases(ctx, ctx.budget(6, 120), ctx.budget(2, 30), ctx.budget(0, 2)) + zero_cases(ctx, ctx.budget(8, 120))
     out, cases, obs, usable, bad = fakes.drive(
         ctx, "c15", SPEC, ctx.budget(18, 300), ctx.budget(4, 50), ctx.budget(10, 768), RULE,
         "a job started before an upstream job succeeded / started twice / was never run", extra_cases=extra,
@@ -144,6 +169,8 @@ def run(ctx):
             case=c, observed=fakes.slim(o), expected={"generations_in_outputs": [2]}, kind="spec", finding=f,
             note="forced re-run over a warm cache: a job consumed the stale (first-run) value of an upstream job"))
     out.distribution["rerun_runs_with_stale_values"] = stale
+    out.distribution["runs_with_a_zero_job_node"] = sum(
+        1 for i in usable if any(n.get("split") == 0 for n in cases[i]["nodes"]))
     return out
 
 
